@@ -5,9 +5,10 @@
 // transactions, and after every operation dumps the raw tables and the parents /
 // children / parents-then-children / descendants traversals of every identifier of the
 // case universe. Line protocol: one JSON case per stdin line, one JSON result per stdout
-// line. Every case runs under a watchdog: a hang (unbounded recursion of the cycle
-// check) is reported in the result and the process re-executes itself for the
-// remaining cases.
+// line. The cases are executed by a worker child process (the same binary started with
+// -worker) under a per-case watchdog: a hang or a fatal crash (unbounded recursion of the
+// cycle check ends in a stack overflow) is reported in the result of the case in flight
+// and a fresh worker takes the remaining cases.
 package main
 
 import (
@@ -15,10 +16,11 @@ import (
 	"context"
 	"encoding/json"
 	"fmt"
+	"io"
 	"os"
+	"os/exec"
 	"sort"
-	"sync"
-	"syscall"
+	"strings"
 	"time"
 
 	"github.com/synnaxlabs/synnax/pkg/distribution/ontology"
@@ -70,7 +72,13 @@ type result struct {
 	ID    int     `json:"id"`
 	Steps []step  `json:"steps"`
 	Panic *string `json:"panic"`
-	Hang  bool    `json:"hang"`
+	// set by the supervisor when the worker did not answer (Hang) or died (Crash);
+	// At = index of the op in flight, AtErr = what that op's writer call returned ("" if
+	// the call itself did not return)
+	Hang  bool   `json:"hang"`
+	Crash string `json:"crash"`
+	At    int    `json:"at"`
+	AtErr string `json:"at_err"`
 }
 
 func class(err error) string {
@@ -140,19 +148,13 @@ func descendants(ctx context.Context, w ontology.Writer, id ontology.ID) qres {
 	return qres{E: "ok", R: idPairs(ids)}
 }
 
-type runner struct {
-	mu    sync.Mutex
-	steps []step
-	panic *string
-}
-
-func (r *runner) run(c tcase) {
+// runCase executes one case; progress (one line per completed writer call) goes to prog.
+func runCase(c tcase, prog func(k int, e string)) (res result) {
+	res.ID = c.ID
 	defer func() {
 		if rec := recover(); rec != nil {
 			s := fmt.Sprint(rec)
-			r.mu.Lock()
-			r.panic = &s
-			r.mu.Unlock()
+			res.Panic = &s
 		}
 	}()
 	ctx := context.Background()
@@ -164,9 +166,15 @@ func (r *runner) run(c tcase) {
 	}
 	defer func() { _ = otg.Close() }()
 	var tx gorp.Tx
-	for _, o := range c.Ops {
+	defer func() {
+		if tx != nil {
+			_ = tx.Close()
+		}
+	}()
+	for k, o := range c.Ops {
 		var e error
 		w := otg.NewWriter(tx)
+		prog(k, "")
 		switch o.Op {
 		case "defres":
 			e = w.DefineResource(ctx, o.A.id())
@@ -203,9 +211,7 @@ func (r *runner) run(c tcase) {
 			panic("unknown op " + o.Op)
 		}
 		st := step{Err: class(e)}
-		r.mu.Lock()
-		r.steps = append(r.steps, st)
-		r.mu.Unlock()
+		prog(k, st.Err)
 		var se error
 		if st.Res, st.Rels, se = scan(ctx, otg, tx); se != nil {
 			panic(se)
@@ -223,82 +229,140 @@ func (r *runner) run(c tcase) {
 				descendants(ctx, w, id),
 			})
 		}
-		st.Done = true
-		r.mu.Lock()
-		r.steps[len(r.steps)-1] = st
-		r.mu.Unlock()
+		res.Steps = append(res.Steps, st)
 	}
-	if tx != nil {
-		_ = tx.Close()
-	}
+	return res
 }
 
 const watchdog = 4 * time.Second
 
-func main() {
-	inF := os.Stdin
-	if len(os.Args) == 3 && os.Args[1] == "-in" {
-		f, err := os.Open(os.Args[2])
-		if err != nil {
-			fmt.Fprintln(os.Stderr, err)
+func worker() {
+	in := bufio.NewScanner(os.Stdin)
+	in.Buffer(make([]byte, 1<<20), 1<<26)
+	out := bufio.NewWriter(os.Stdout)
+	for in.Scan() {
+		var c tcase
+		if err := json.Unmarshal(in.Bytes(), &c); err != nil {
+			fmt.Fprintln(os.Stderr, "bad case:", err)
 			os.Exit(2)
 		}
-		_ = os.Remove(os.Args[2])
-		inF = f
+		res := runCase(c, func(k int, e string) {
+			fmt.Fprintf(out, "#%d %s\n", k, e)
+			out.Flush()
+		})
+		b, _ := json.Marshal(res)
+		out.Write(b)
+		out.WriteByte('\n')
+		out.Flush()
 	}
-	in := bufio.NewScanner(inF)
-	in.Buffer(make([]byte, 1<<20), 1<<26)
-	var lines [][]byte
-	for in.Scan() {
-		b := append([]byte(nil), in.Bytes()...)
-		if len(b) > 0 {
-			lines = append(lines, b)
+}
+
+type proc struct {
+	cmd   *exec.Cmd
+	in    io.WriteCloser
+	lines chan string
+}
+
+func startWorker() *proc {
+	exe, err := os.Executable()
+	if err != nil {
+		panic(err)
+	}
+	cmd := exec.Command(exe, "-worker")
+	in, _ := cmd.StdinPipe()
+	out, _ := cmd.StdoutPipe()
+	cmd.Stderr = io.Discard
+	if err := cmd.Start(); err != nil {
+		panic(err)
+	}
+	p := &proc{cmd: cmd, in: in, lines: make(chan string, 64)}
+	go func() {
+		rd := bufio.NewReaderSize(out, 1<<20)
+		for {
+			l, err := rd.ReadString('\n')
+			if len(l) > 0 && err == nil {
+				p.lines <- strings.TrimRight(l, "\n")
+			}
+			if err != nil {
+				close(p.lines)
+				return
+			}
 		}
+	}()
+	return p
+}
+
+func (p *proc) kill() {
+	_ = p.in.Close()
+	_ = p.cmd.Process.Kill()
+	_ = p.cmd.Wait()
+}
+
+func main() {
+	if len(os.Args) == 2 && os.Args[1] == "-worker" {
+		worker()
+		return
 	}
+	in := bufio.NewScanner(os.Stdin)
+	in.Buffer(make([]byte, 1<<20), 1<<26)
 	out := bufio.NewWriter(os.Stdout)
-	for li, line := range lines {
+	defer out.Flush()
+	var p *proc
+	for in.Scan() {
+		line := append([]byte(nil), in.Bytes()...)
+		if len(line) == 0 {
+			continue
+		}
 		var c tcase
 		if err := json.Unmarshal(line, &c); err != nil {
 			fmt.Fprintln(os.Stderr, "bad case:", err)
 			os.Exit(2)
 		}
-		r := &runner{}
-		done := make(chan struct{})
-		go func() { r.run(c); close(done) }()
-		hang := false
-		select {
-		case <-done:
-		case <-time.After(watchdog):
-			hang = true
+		if p == nil {
+			p = startWorker()
 		}
-		r.mu.Lock()
-		res := result{ID: c.ID, Steps: r.steps, Panic: r.panic, Hang: hang}
-		b, _ := json.Marshal(res)
-		r.mu.Unlock()
-		out.Write(b)
+		_, _ = p.in.Write(append(line, '\n'))
+		at, atErr := -1, ""
+		deadline := time.After(watchdog)
+		var final string
+		failed := ""
+	wait:
+		for {
+			select {
+			case l, ok := <-p.lines:
+				if !ok {
+					failed = "crash"
+					break wait
+				}
+				if strings.HasPrefix(l, "#") {
+					fmt.Sscanf(l, "#%d %s", &at, &atErr)
+					if !strings.Contains(l, " ") || strings.HasSuffix(l, " ") {
+						atErr = ""
+					}
+					continue
+				}
+				final = l
+				break wait
+			case <-deadline:
+				failed = "hang"
+				break wait
+			}
+		}
+		if failed != "" {
+			p.kill()
+			p = nil
+			res := result{ID: c.ID, At: at, AtErr: atErr, Hang: failed == "hang"}
+			if failed == "crash" {
+				res.Crash = "worker process died (fatal runtime error, e.g. stack overflow)"
+			}
+			b, _ := json.Marshal(res)
+			final = string(b)
+		}
+		out.WriteString(final)
 		out.WriteByte('\n')
-		if hang {
-			// the runaway goroutine cannot be stopped: hand the remaining cases to a
-			// fresh process image.
-			out.Flush()
-			if li+1 == len(lines) {
-				os.Exit(0)
-			}
-			f, err := os.CreateTemp("", "c16rest")
-			if err != nil {
-				fmt.Fprintln(os.Stderr, err)
-				os.Exit(2)
-			}
-			for _, l := range lines[li+1:] {
-				f.Write(l)
-				f.Write([]byte{'\n'})
-			}
-			f.Close()
-			exe, _ := os.Executable()
-			err = syscall.Exec(exe, []string{exe, "-in", f.Name()}, os.Environ())
-			fmt.Fprintln(os.Stderr, "exec failed:", err)
-			os.Exit(2)
-		}
 	}
-	out.Flush()
+	if p != nil {
+		_ = p.in.Close()
+		_ = p.cmd.Wait()
+	}
 }
